@@ -37,13 +37,19 @@ def build_scenario_parts(rng, nvars, opes=False, script=False, errors=False):
         if len(pool) < 14:
             pool = list(range(1, 39))
         ct = [slots[2 * i], slots[2 * i + 1]]
-        cv = corpus.make_combo_colvar(rng, sysm, pool, "v%d" % i, ct, ["width 1.0", "lowerBoundary -50", "upperBoundary 50"])
+        extra = ["width 1.0", "lowerBoundary -50", "upperBoundary 50"]
+        # two variables follow their own, different, coarse time steps: the set of active work items
+        # changes from step to step while its size often stays the same
+        if i >= nvars - 2:
+            extra.append("timeStepFactor %d" % (2 if i == nvars - 2 else 3))
+        cv = corpus.make_combo_colvar(rng, sysm, pool, "v%d" % i, ct, extra)
         cvs.append(cv)
         text += cv["text"] + "\n"
     biases = ""
     for i in range(nvars):
-        biases += "harmonic {\n  name h%d\n  colvars v%d\n  centers %s\n  forceConstant %s\n}\n" % (
-            i, i, fnum(rng.uniform(-3, 3)), fnum(rng.uniform(0.5, 5)))
+        tsf = "" if i < nvars - 2 else "  timeStepFactor %d\n" % (2 if i == nvars - 2 else 3)
+        biases += "harmonic {\n  name h%d\n  colvars v%d\n  centers %s\n  forceConstant %s\n%s}\n" % (
+            i, i, fnum(rng.uniform(-3, 3)), fnum(rng.uniform(0.5, 5)), tsf)
     biases += "metadynamics {\n  name m1\n  colvars v0 v1\n  hillWeight 0.3\n  newHillFrequency 2\n  hillWidth 2.0\n  useGrids off\n}\n"
     biases += "histogram {\n  name hist\n  colvars v2\n}\n"
     biases += "harmonicWalls {\n  name w1\n  colvars v3\n  lowerWalls -1.0\n  upperWalls 1.0\n  forceConstant 2.0\n}\n"
@@ -54,7 +60,7 @@ def build_scenario_parts(rng, nvars, opes=False, script=False, errors=False):
         glob_opts += "scriptedColvarForces on\nscriptingAfterBiases off\n"
     frames = []
     pos = sysm["pos"]
-    for t in range(8):
+    for t in range(13):
         pos = [[x + rng.uniform(-0.12, 0.12) for x in p] for p in pos]
         frames.append(pos)
     return sysm, glob_opts + text + biases, frames
